@@ -22,6 +22,15 @@ REJECT = (TypeError, ValueError, NotImplementedError, RuntimeError, AssertionErr
 # ---------------------------------------------------------------------------------------------
 # string front-end: pretty-printer of the AST
 
+def inline_lets(node, lets):
+    """The string front-end has no user-defined variables: substitute their definitions (same value by definition)."""
+    if not isinstance(node, list):
+        return node
+    if node and node[0] == "var":
+        return inline_lets(lets[node[1]], lets)
+    return [inline_lets(x, lets) for x in node]
+
+
 def to_string(node):
     op = node[0]
     s = to_string
@@ -192,7 +201,8 @@ def check_batch(spec, ctx):
     # string front-end for the first form of the batch (separately compiled: costs one more compile)
     if spec.get("string") and prepared and not prepared[0][0].get("spacetime"):
         fs, built, A, sabs = prepared[0]
-        text = " + ".join(to_string(t) for t in fs["terms"])
+        lets = {v["name"]: v["expr"] for v in fs.get("lets", [])}
+        text = " + ".join(to_string(inline_lets(t, lets)) for t in fs["terms"])
         comps = fs.get("comps")
         spaces = fs.get("spaces") or [0, 0]
         if fs["arity"] == 2:
